@@ -206,3 +206,14 @@ def c14_7(ctx, r):
     from .c05 import completion_decision
 
     completion_decision(ctx, r, "C14.7")
+    # ... and the commands that run a submitter round reach it for a canceled submission too (the round collects the
+    # results recorded before the cancel and forces completion; only the hand-off inside it is gated)
+    for spec in ("try_submit_jobs.try_submit_jobs",):
+        fn = ctx.fn(spec, "C14.7")
+        for s2 in ctx.some_sites(fn, "C14.7", short="JobSubmitter.submit_jobs"):
+            for n in ctx.nodes_of(fn, s2.node):
+                forms = guard_forms(ctx, fn, n, ALL_KINDS, kill=False)
+                bad = sorted(("" if p else "not ") + f for f, p in forms if "is_canceled" in f)
+                r.check(not bad, f"{fn.short}: the submitter round does not depend on the canceled flag", key_of(fn, "round skipped for a canceled submission"), s2.loc,
+                        f"the submitter round is reached only under {bad}: after a cancel no round ever collects the results written before the cancel, results.json (with the never-run jobs as missing) "
+                        "is never written and the submission stays incomplete for ever", "Results recorded before the cancel are kept and jobs that never ran are reported missing")
